@@ -18,6 +18,7 @@
    Partial: torn writes to the tree / bitfield / data stores are not in these theorems (a torn page or node is
    re-derived by replay: C08_replay_exact, DESIGN 5.1); tools/c07.py tears every write of every generated
    history at every byte (<= 64 bytes) or at framing/sector boundaries and random cuts, on crate and model. *)
+From HC Require Import HonestTornHistEx.
 From HC Require Import HonestTornHistA HonestTornHistB HonestTornHistC HonestTornHist.
 From HC Require Import HonestCrash1 HonestCrash2 HonestTorn.
 From HC Require Import SoundCoreLib SoundCore ReplicaDisk1 ReplicaDisk3 ReplicaDisk5 TornReplicaA TornReplicaB TornReplica.
@@ -951,6 +952,38 @@ Theorem C07_honest_round_from_torn_tolerant_state :
                 else recoversRC cr bs pk dkt H' r') \/ is_slot_write o = true /\ collision cr t)).
 Proof. exact honest_round_ZC. Qed.
 
+Theorem C07_honest_torn_history_example_computed :
+  trun sc_cr ht_es AcceptAllEx.scR_c AcceptAllEx.scR_w = Some (ht7_c, ht7_w) /\
+         (exists e : errkind, required_node (c_tree ht4_c) (d_tree (w_disk ht4_w)) 2 = Err e) /\
+         required_node (c_tree ht5_c) (d_tree (w_disk ht5_w)) 2 = Ok (TreeRef.ref_at sc_cr sc_blocks 2) /\
+         t_length (c_tree ht7_c) = 6 /\
+         core_has ht7_c 0 = true /\
+         core_has ht7_c 4 = true /\
+         core_has ht7_c 1 = false /\
+         snd (core_get 4 ht7_c ht7_w) = Ok (Some [9; 10]) /\ snd (core_get 0 ht7_c ht7_w) = Ok (Some [1; 2; 3]).
+Proof. exact ht_run_computed. Qed.
+
+Theorem C07_honest_torn_history_example_applies :
+  exists (c' : core) (w' : world),
+           trun sc_cr ht_es AcceptAllEx.scR_c AcceptAllEx.scR_w = Some (c', w') /\
+           t_length (c_tree c') = 6 /\
+           t_byte_length (c_tree c') = TreeRef.prefix_size sc_blocks 6 /\
+           core_has c' 4 = true /\
+           core_has c' 0 = true /\
+           core_has c' 1 = false /\
+           (RCInvZ sc_cr sc_blocks c' (w_disk w') (theld_all (fun _ : N => false) ht_es) /\
+            (forall i : N, tcommitted ht_es i -> core_has c' i = true) /\
+            (forall (i : N) (j2 : list sop) (ev2 : list event),
+             core_has c' i = true ->
+             core_get i c' {| w_disk := w_disk w'; w_journal := j2; w_events := ev2 |} =
+             (c', {| w_disk := w_disk w'; w_journal := j2; w_events := ev2 |},
+              Ok (Some (TreeRef.blk sc_blocks i)))) \/ (exists t : nat, collision sc_cr t)).
+Proof. exact ht_torn_histories_applies. Qed.
+
+Theorem C07_honest_torn_history_example_premises :
+  thist sc_cr sc_blocks ht_es AcceptAllEx.scR_c AcceptAllEx.scR_w.
+Proof. exact ht_hist. Qed.
+
 Print Assumptions C07_torn_entry_is_no_frame.
 Print Assumptions C07_torn_append_recovers_before.
 Print Assumptions C07_torn_flush_before_after_or_collision.
@@ -1003,3 +1036,6 @@ Print Assumptions C07_honest_round_torn_recovers.
 Print Assumptions C07_honest_histories_with_torn_crashes.
 Print Assumptions C07_honest_fresh_histories_with_torn_crashes.
 Print Assumptions C07_honest_round_from_torn_tolerant_state.
+Print Assumptions C07_honest_torn_history_example_computed.
+Print Assumptions C07_honest_torn_history_example_applies.
+Print Assumptions C07_honest_torn_history_example_premises.
